@@ -309,7 +309,7 @@ func (x *Unit) frameGoals(st *State) (goals []frameGoal, ok bool) {
 	}
 	for _, k := range sortedKeys(st.ghost) {
 		g := st.ghost[k]
-		if k == "now" || strings.HasPrefix(k, "res:") || strings.HasPrefix(k, "let:") || strings.HasPrefix(k, "calls:") {
+		if k == "now" || k == "syncedWith" || strings.HasPrefix(k, "res:") || strings.HasPrefix(k, "let:") || strings.HasPrefix(k, "calls:") {
 			continue
 		}
 		want, have := exp.ghost[k]
@@ -324,7 +324,7 @@ func (x *Unit) frameGoals(st *State) (goals []frameGoal, ok bool) {
 		}
 		gg, ww := g, want
 		if kv, isMap := x.u.mapKV[g.Sort]; isMap {
-			refKeyed := k == "chanClosed" || k == "chanSent" || k == "timerDeadline" || k == "lockHeld" || k == "onceDone"
+			refKeyed := k == "chanClosed" || k == "chanSent" || k == "timerDeadline" || k == "lockHeld"
 			if gd := x.eng.ghostDecls[k]; gd != nil && gd.refKeyed {
 				refKeyed = true
 			}
